@@ -109,6 +109,24 @@ CHECKS["C02"] = dict(
          "recogniser rejects it, and must not reach Rust then.",
     note="Trusted: as C01, plus g++/libstdc++. feature_tests/example headers are compiled by C09, not executed here.")
 
+CHECKS["C06"] = dict(
+    category="exploration", design="§2 C06",
+    technique="exhaustive enumeration of abi_rename / rename / disable placements; reference naming model vs nm of the staticlib built with the real macro; per-backend symbol-reference extraction from all seven outputs",
+    text="All 81 placements of abi_rename on {module, type, impl, method} x {absent, {0}-pattern, literal} (thorough: x 3 owner kinds x 45 rename/disable variants) are compiled by the real "
+         "macro; the exported symbols (nm) must equal the reference naming scheme, and for every backend the set of symbols its generated code references must equal the exported symbols "
+         "of the items enabled there (disabled items stay exported and unreferenced).",
+    note="Trusted: nm as ground truth; the reference naming model written from the documentation (composition of nested {0} patterns is UNSPECIFIED: either reading accepted, but one "
+         "reading must explain every module); extractors exit 2 on shapes they do not understand. Dart/Kotlin/JS output is read as text.")
+
+CHECKS["C07"] = dict(
+    category="exploration", design="§2 C07",
+    technique="the C01 method/struct enumeration pushed through the real Dart and Kotlin backends; generated native declarations parsed into abstract ABI shapes by strict extractors and compared with the shapes of the Rust source-level types",
+    text="For every exported function of the shared generated crate (every parameter/return shape, struct layout, Option/Result record, slice kind, write-out method, callback) the "
+         "@ffi.Native signature (Dart) and the JNA Library function (Kotlin), and every ffi.Struct/Union and Structure/Union mirror incl. getFieldOrder, are parsed and compared member "
+         "by member (count, order, integer width, signedness for Dart, float kind, pointer vs by-value, record shapes) with the C ABI shape of the Rust types.",
+    note="Trusted: the shape model (tied to the compiled ABI by C01's execution), the strict parsers (unknown forms = UNDECIDED, exit 2), JNA's documented default type mapping. "
+         "Nothing is compiled or executed for these two languages (no toolchains in the sandbox).")
+
 CHECKS["C08"] = dict(
     category="model_checking", design="§2 C08",
     technique="exhaustive enumeration of struct definitions (every ordered field tuple over the field alphabet) x field values; generated JS executed in Node against a stub wasm memory; reference = rustc's layout of the same definitions + reference argument flattening for both wasm ABIs",
